@@ -443,7 +443,11 @@ pub fn run(run: &mut Run) -> Finish {
             l.traces += 1;
             l.transitions += len as u64 + 1;
             let sh = model_state_hash_b(&ops);
-            l.states.insert(sh);
+            // the set of distinct model states is only kept up to length 5 (beyond, it would hold
+            // hundreds of millions of hashes for a number that decides nothing)
+            if len <= 5 {
+                l.states.insert(sh);
+            }
             l.case(true, sh % 4096);
             if l.wants_sample(idx) {
                 l.sample(idx, json!({"builder_history": serde_json::to_value(&ops).unwrap()}));
@@ -491,8 +495,10 @@ pub fn run(run: &mut Run) -> Finish {
             }
             l.traces += 1;
             l.transitions += len as u64;
-            let sh = h64(&(seed, serde_json::to_string(&ops).unwrap()));
-            l.states.insert(sh);
+            if len <= 5 {
+                let sh = h64(&(seed, serde_json::to_string(&ops).unwrap()));
+                l.states.insert(sh);
+            }
             l.case(true, h64(&(seed, ops.iter().map(|o| std::mem::discriminant(o)).collect::<Vec<_>>())));
             if l.wants_sample(idx) {
                 l.sample(idx, json!({"seed_sources": seeds[seed].sources, "seed_root": seeds[seed].root, "map_history": serde_json::to_value(&ops).unwrap()}));
@@ -501,7 +507,7 @@ pub fn run(run: &mut Run) -> Finish {
     }
     Finish {
         level: "model_checking",
-        rule: "E2: every history of builder calls up to the stated length (alphabet: add_source x4, add_name x3, add x8, add_raw x2, set_source_contents x4, add_to_ignore_list x2, set_source_root x5, set_file x2, set_debug_id x2) is replayed on a fresh SourceMapBuilder in lock-step with a Vec+linear-search interning model: returned ids / raw tokens and all getters after every step, the finished map's sources (joined with the root), names, contents, ignore list, file, debug id, root and every token's resolved strings at the end. Every history of map operations (set_source_root x6, set_source x6, set_source_contents x4, to_writer+from_slice) from 12 seed maps: after every step get_source(i) = join(root, raw_i), contents, and the serialised sources/sourceRoot are the raw names and root. Builder histories also start from four non-initial states (prefixes with several sources, contents, roots, raw tokens). No state merging: states = distinct reference-model states (builder) / histories (map); transitions = operations executed on real objects; traces = complete histories.".into(),
+        rule: "E2: every history of builder calls up to the stated length (alphabet: add_source x4, add_name x3, add x8, add_raw x2, set_source_contents x4, add_to_ignore_list x2, set_source_root x5, set_file x2, set_debug_id x2) is replayed on a fresh SourceMapBuilder in lock-step with a Vec+linear-search interning model: returned ids / raw tokens and all getters after every step, the finished map's sources (joined with the root), names, contents, ignore list, file, debug id, root and every token's resolved strings at the end. Every history of map operations (set_source_root x6, set_source x6, set_source_contents x4, to_writer+from_slice) from 12 seed maps: after every step get_source(i) = join(root, raw_i), contents, and the serialised sources/sourceRoot are the raw names and root. Builder histories also start from four non-initial states (prefixes with several sources, contents, roots, raw tokens). No state merging: states = distinct reference-model states (builder) / histories (map), counted for histories of at most five operations; transitions = operations executed on real objects; traces = complete histories.".into(),
         assumptions: vec!["operations with out-of-range ids (documented to panic) are not part of the alphabet".into(), "tokens sharing a position are compared as a multiset".into()],
         coverage_extra: json!({"builder_depth": bdepth, "builder_alphabet": nb, "map_depth": mdepth, "map_alphabet": nm, "map_seeds": ns}),
     }
